@@ -964,7 +964,8 @@ pub fn hostile(trace: &[Value]) -> Vec<Value> {
             }
             "Accept" if e["ok"] == false => accept_err = json!(e["err"].as_str().unwrap_or("?").chars().take(60).collect::<String>()),
             "Panic" => panic = true,
-            "StepBound" => stepbound = true,
+            // the harness's own cap on the length of a recording is not a loop in the code under test
+            "StepBound" if e["what"] != "max_trace" => stepbound = true,
             "Tx" if n == victim_n => {
                 for p in pkts_of(e) {
                     for f in frames_of(p) {
